@@ -17,6 +17,7 @@ SymOfReply(f) ==
     [] f = "write_timeout_batchlog" -> Sym("WriteTimeout", 0, 0, FALSE, "BatchLog") [] f = "write_timeout_simple" -> Sym("WriteTimeout", 0, 0, FALSE, "Simple")
     [] f = "read_failure" -> Sym("ReadFailure", 0, 0, FALSE, "-") [] f = "write_failure" -> Sym("WriteFailure", 0, 0, FALSE, "-")
     [] f = "drop" -> Sym("Broken", 0, 0, FALSE, "-")
+    [] f = "orphan_break" -> Sym("Broken", 0, 0, FALSE, "-")     \* the driver broke the connection itself (too many orphaned stream ids)
 ClName(c) == CASE c = 0 -> "Any" [] c = 1 -> "One" [] c = 2 -> "Two" [] c = 3 -> "Three" [] c = 4 -> "Quorum" [] c = 5 -> "All"
                [] c = 6 -> "LocalQuorum" [] c = 7 -> "EachQuorum" [] c = 8 -> "Serial" [] c = 9 -> "LocalSerial" [] c = 10 -> "LocalOne"
 PolName(p) == CASE p = "default" -> "Default" [] p = "downgrading" -> "Downgrading" [] p = "fallthrough" -> "Fallthrough"
